@@ -88,10 +88,17 @@
 #include "quill/sinks/Sink.h"
 #undef atomic
 
+// -DHSTOP_DROP: a small bounded DROPPING queue (spec/CounterRA.tla): `X logbig` logs a statement of which two fit; a third is
+// dropped (ThreadContext::_failure_counter, named C); the error notifier's "Dropped N log messages" reports are summed.
 struct FO
 {
+#ifdef HSTOP_DROP
+  static constexpr quill::QueueType queue_type = quill::QueueType::BoundedDropping;
+  static constexpr size_t initial_queue_capacity = 512;
+#else
   static constexpr quill::QueueType queue_type = quill::QueueType::BoundedBlocking;
   static constexpr size_t initial_queue_capacity = 4096;
+#endif
   static constexpr uint32_t blocking_queue_retry_interval_ns = 800;
   static constexpr size_t unbounded_queue_max_capacity = 4096;
   static constexpr quill::HugePagesPolicy huge_pages_policy = quill::HugePagesPolicy::Never;
@@ -129,7 +136,8 @@ static bool s_armed = false, s_stop_done = false;
 static bool s_parked_at[shim::NT] = {}, s_go_t[shim::NT] = {};
 static std::string s_where[shim::NT];
 static std::set<std::string> s_policy;
-static long s_wloads = 0, s_wyloads = 0, s_rloads = 0;
+static long s_wloads = 0, s_wyloads = 0, s_rloads = 0, s_xdrops = 0;
+static std::atomic<long> g_reported{0};
 #define s_parked s_parked_at[1]
 #define s_go s_go_t[1]
 
@@ -142,6 +150,7 @@ static void park(std::string const& nm, int t, int kind)
   }
   std::unique_lock<std::mutex> l(s_mx);
   if (t == 1 && kind == 0 && nm == "R") { ++s_rloads; s_cv.notify_all(); }
+  if (t == 0 && kind == 2 && nm == "C") ++s_xdrops;
   if (!s_armed) return;
   static char const* const kinds[] = {"load", "store", "rmw"};
   if (!s_policy.count(std::to_string(t) + ":" + nm + ":" + kinds[kind])) return;
@@ -179,6 +188,13 @@ struct Worker
         {
           shim::g_thr = logical;
           if (tag == 'Y') LOG_INFO(logger, "Y statement {}", committed); else LOG_INFO(logger, "X statement {}", committed);
+          shim::g_thr = -1;
+          ++committed;
+        }
+        else if (c == 6)
+        {
+          shim::g_thr = logical;
+          LOG_INFO(logger, "X big {}", std::string(150, 'x'));
           shim::g_thr = -1;
           ++committed;
         }
@@ -236,7 +252,7 @@ int main(int argc, char** argv)
     bool parked;
     { std::lock_guard<std::mutex> l(s_mx); parked = s_parked_at[t]; w = parked ? s_where[t] : std::string{}; }
     return "\"t\":" + std::to_string(t) + ",\"at\":\"" + w + "\",\"cache\":" + std::to_string(cache_size()) + ",\"delivered\":" +
-      std::to_string(g_delivered.load());
+      std::to_string(g_delivered.load()) + ",\"reported\":" + std::to_string(g_reported.load());
   };
   auto wait_thread = [&](int t)
   {
@@ -264,7 +280,12 @@ int main(int argc, char** argv)
       bo.sleep_duration = std::chrono::nanoseconds{0};
       bo.enable_yield_when_idle = false;
       bo.check_backend_singleton_instance = false;
-      bo.error_notifier = [](std::string const& s) { std::fprintf(stderr, "notifier: %s\n", s.c_str()); };
+      bo.error_notifier = [](std::string const& s)
+      {
+        auto const p = s.find("Dropped ");
+        if (p != std::string::npos) g_reported.fetch_add(std::strtol(s.c_str() + p + 8, nullptr, 10));
+        else std::fprintf(stderr, "notifier: %s\n", s.c_str());
+      };
       quill::Backend::start(bo);
       auto sink = VFrontend::create_or_get_sink<CountSink>("count");
       logger = VFrontend::create_or_get_logger("L", std::move(sink));
@@ -284,7 +305,8 @@ int main(int argc, char** argv)
         shim::g_names[&qx._atomic_writer_pos] = "W";
         shim::g_names[&qy._atomic_writer_pos] = "WY";
         shim::g_names[&Y.ctx->_valid] = "V";
-        shim::g_names[&quill::detail::ThreadContextManager::instance()._new_thread_context_flag] = "F";        // named for its memory orders only: never scripted, reads the newest message
+        shim::g_names[&quill::detail::ThreadContextManager::instance()._new_thread_context_flag] = "F";
+        shim::g_names[&X.ctx->_failure_counter] = "C";        // named for its memory orders only: never scripted, reads the newest message
       }
       // arm: from now on B parks at the head of its loop
       { std::lock_guard<std::mutex> l(s_mx); s_armed = true; s_policy = {"1:R:load"}; }
@@ -305,6 +327,7 @@ int main(int argc, char** argv)
         collapse(qx._atomic_writer_pos);
         collapse(qy._atomic_writer_pos);
         collapse(quill::detail::ThreadContextManager::instance()._new_thread_context_flag);
+        collapse(X.ctx->_failure_counter);
         g_wclk = shim::Clock{};
       }
       g_delivered.store(0);
@@ -318,6 +341,13 @@ int main(int argc, char** argv)
       {
         X.run(2);
         emit("{\"e\":\"committed\",\"n\":" + std::to_string(X.committed) + "}");
+      }
+      else if (op == "logbig")
+      {
+        // posted: the call parks inside if the statement is dropped and the policy says so (0:C:rmw)
+        X.post(6);
+        wait_thread(0);
+        emit("{\"e\":\"xcall\"," + state_json(0) + "}");
       }
       else if (op == "flushcall")
       {
@@ -453,6 +483,7 @@ int main(int argc, char** argv)
       s_cv.notify_all();
       // first the logging threads complete their calls, THEN the backend gets n full loop iterations
       for (auto& z : Z) if (z.th.joinable()) z.wait();
+      X.wait();
       {
         std::unique_lock<std::mutex> l(s_mx);
         long const r0 = s_rloads;
@@ -461,7 +492,8 @@ int main(int argc, char** argv)
       }
       { std::unique_lock<std::mutex> l(s_mx); s_cv.wait(l, [] { return s_parked_at[1]; }); }      // parked again: its state can be read
       emit("{\"e\":\"quiet\",\"cache\":" + std::to_string(cache_size()) + ",\"delivered\":" + std::to_string(g_delivered.load()) +
-           ",\"zlogged\":" + std::to_string(Z[0].committed + Z[1].committed) + "}");
+           ",\"zlogged\":" + std::to_string(Z[0].committed + Z[1].committed) + ",\"drops\":" + std::to_string(s_xdrops) +
+           ",\"reported\":" + std::to_string(g_reported.load()) + ",\"xcalls\":" + std::to_string(X.committed) + "}");
     }
     else if (c == "end") break;
   }
